@@ -1,4 +1,5 @@
 import NfcVerif.Lemmas.TlvSync
+import NfcVerif.Lemmas.T1Format
 /-!
 # C03 - NDEF writes touch nothing outside the NDEF message area (Type 1 and Type 2 Tag)
 
@@ -6,7 +7,7 @@ import NfcVerif.Lemmas.TlvSync
 by a lock/memory control TLV (nor, Type 1, one of the static lock/reserved bytes 104..127).
 Everything else - UID, static lock bytes, OTP, capability container, the TLVs in front of the
 NDEF TLV and its tag byte, reserved ranges, dynamic lock bytes and whatever follows the data
-area - is outside.  Model: `NfcVerif.Model.Tlv` (F1, F3 modelled as repaired).
+area - is outside.  Model: `NfcVerif.Model.Tlv` (F1, F2, F3 modelled as repaired).
 -/
 namespace NfcVerif.C03
 open NfcVerif NfcVerif.Tlv
@@ -19,37 +20,40 @@ theorem t12_write_confined (c : Cfg) (m : Bytes) (L : Layout) (data : Bytes)
     (hread : readNdef c m = .ok (some L)) (hwf : WF c m L) (hcap : (data.length : Int) ≤ L.cap)
     (h3 : Hdr3 L data.length) :
     ∃ ph, writeNdef c m L data = .ok ph ∧ ph.m3.length = m.length ∧
-      ∀ x, ¬ Area L x → ph.m1[x]? = m[x]? ∧ ph.m2[x]? = m[x]? ∧ ph.m3[x]? = m[x]? := by
-  obtain ⟨m1, m2, m3, w, _⟩ := roundtrip c m L data ((readNdef_some c m L).1 hread) hwf hcap
-  obtain ⟨s1, s2, s3⟩ := steps_area w hwf h3
-  refine ⟨⟨m1, m2, m3⟩, ?_, w.len3, fun x hx => ?_⟩
-  · unfold writeNdef; rw [w.p1, Py.bind_ok, w.p2, Py.bind_ok, w.p3, Py.bind_ok]
+      ∀ x, ¬ Area L x → ph.m1[x]? = m[x]? ∧ ph.m2[x]? = m[x]? ∧ ph.m3a[x]? = m[x]? ∧ ph.m3[x]? = m[x]? := by
+  obtain ⟨m1, m2, m3a, m3, w, _⟩ := roundtrip c m L data ((readNdef_some c m L).1 hread) hwf hcap
+  obtain ⟨s1, s2, s3a, s3⟩ := steps_area w hwf h3
+  refine ⟨⟨m1, m2, m3a, m3⟩, ?_, w.len3, fun x hx => ?_⟩
+  · unfold writeNdef; rw [w.p1, Py.bind_ok, w.p2, Py.bind_ok, w.p3a, Py.bind_ok, w.p3, Py.bind_ok]
   · have e1 : m1[x]? = m[x]? := Classical.byContradiction fun h => hx (s1 x h)
     have e2 : m2[x]? = m1[x]? := Classical.byContradiction fun h => hx (s2 x h)
-    have e3 : m3[x]? = m2[x]? := Classical.byContradiction fun h => hx (s3 x h)
-    exact ⟨e1, by rw [e2, e1], by rw [e3, e2, e1]⟩
+    have e3a : m3a[x]? = m2[x]? := Classical.byContradiction fun h => hx (s3a x h)
+    have e3 : m3[x]? = m3a[x]? := Classical.byContradiction fun h => hx (s3 x h)
+    exact ⟨e1, by rw [e2, e1], by rw [e3a, e2, e1], by rw [e3, e3a, e2, e1]⟩
 
 /-- **No command addresses a unit wholly outside the area**: every write command the setter
-sends (all three phases) covers at least one byte of `Area`. -/
+sends (all `synchronize()` calls) covers at least one byte of `Area`. -/
 theorem t12_commands_confined (c : Cfg) (m : Bytes) (L : Layout) (data : Bytes)
     (hread : readNdef c m = .ok (some L)) (hwf : WF c m L) (hcap : (data.length : Int) ≤ L.cap)
     (h3 : Hdr3 L data.length) :
     ∀ cmd ∈ (setOctets c m L data).cmds, ∃ x, cmd.1 ≤ x ∧ x < cmd.1 + cmd.2.length ∧ Area L x := by
-  obtain ⟨m1, m2, m3, w, _⟩ := roundtrip c m L data ((readNdef_some c m L).1 hread) hwf hcap
-  obtain ⟨s1, s2, s3⟩ := steps_area w hwf h3
+  obtain ⟨m1, m2, m3a, m3, w, _⟩ := roundtrip c m L data ((readNdef_some c m L).1 hread) hwf hcap
+  obtain ⟨s1, s2, s3a, s3⟩ := steps_area w hwf h3
   have hl1 := w.len1
   have hl2 := w.len2
   have hl3 := w.len3
+  have hl3a : m3a.length = m.length := by rw [w.m3a_eq, pre3_length, hl2]
   intro cmd hc
   unfold setOctets at hc
   split at hc
   · cases hc
   · rw [if_neg (by omega), writeCmds_eq w] at hc
     simp only [List.mem_append] at hc
-    rcases hc with (hc | hc) | hc
+    rcases hc with ((hc | hc) | hc) | hc
     · exact cmd_covers c.unit m m1 hl1.symm _ s1 cmd hc
     · exact cmd_covers c.unit m1 m2 (by omega) _ s2 cmd hc
-    · exact cmd_covers c.unit m2 m3 (by omega) _ s3 cmd hc
+    · exact cmd_covers c.unit m2 m3a (by omega) _ s3a cmd hc
+    · exact cmd_covers c.unit m3a m3 (by omega) _ s3 cmd hc
 
 /-- **Type 2 format (erase), with and without wipe** - `Type2Tag._format` as repaired (F3): only
 bytes of the area change, and every WRITE covers a byte of the area.  Hypotheses: the length byte
@@ -62,6 +66,39 @@ theorem t2_format_confined (m m' : Bytes) (L : Layout) (wipe : Option Nat)
   obtain ⟨hl, hc⟩ := formatT2_spec m m' L wipe hs1 h1 h
   exact ⟨hl, fun x hx => Classical.byContradiction fun hne => hx (hc x hne),
     fun cmd hcmd => cmd_covers 4 m m' hl.symm _ hc cmd hcmd⟩
+
+/-- **Topaz / Topaz-512 format (erase) on NDEF formatted tags**, `version=None`, with and without
+wipe (`tt1_broadcom.py`): on a tag that already carries the factory NDEF management data (capability
+container and, Topaz-512, the lock and memory control TLVs, NDEF TLV tag at 12 resp. 22 - everything
+`_format` writes except the length byte) only bytes of the area change - the NDEF length byte
+and, with wipe, the data bytes 14..103 resp. 24..103 and 128..511; never the UID, the static lock
+and reserved bytes 104..127 or the capability container - and every write command (byte writes on
+the Topaz, 8-byte blocks on the Topaz-512) covers a byte of the area.  `topazLayout` /
+`topaz512Layout` are what the reader computes on such tags. -/
+theorem t1_format_confined (m m' : Bytes) (wipe : Option Nat) :
+    ((∀ i, i < 5 → m[8 + i]? = topazHdr[i]?) → formatTopaz m wipe = .ok m' →
+      m'.length = m.length ∧ (∀ x, ¬ Area topazLayout x → m'[x]? = m[x]?)
+      ∧ ∀ cmd ∈ diffUnits 1 m m', ∃ x, cmd.1 ≤ x ∧ x < cmd.1 + cmd.2.length ∧ Area topazLayout x)
+    ∧ ((∀ i, i < 15 → m[8 + i]? = topaz512Hdr[i]?) → formatTopaz512 m wipe = .ok m' →
+      m'.length = m.length ∧ (∀ x, ¬ Area topaz512Layout x → m'[x]? = m[x]?)
+      ∧ ∀ cmd ∈ diffUnits 8 m m', ∃ x, cmd.1 ≤ x ∧ x < cmd.1 + cmd.2.length ∧ Area topaz512Layout x) := by
+  constructor
+  · intro hfac h
+    obtain ⟨hl, hc⟩ := formatTopaz_spec m m' wipe hfac h
+    exact ⟨hl, fun x hx => Classical.byContradiction fun hne => hx (hc x hne),
+      fun cmd hcmd => cmd_covers 1 m m' hl.symm _ hc cmd hcmd⟩
+  · intro hfac h
+    obtain ⟨hl, hc⟩ := formatTopaz512_spec m m' wipe hfac h
+    exact ⟨hl, fun x hx => Classical.byContradiction fun hne => hx (hc x hne),
+      fun cmd hcmd => cmd_covers 8 m m' hl.symm _ hc cmd hcmd⟩
+
+/-- non-vacuity: a factory formatted Topaz with a 3-byte message; the reader finds `topazLayout`'s
+offset, skip set and area end; format with wipe succeeds -/
+def tpM : Bytes :=
+  [1, 2, 3, 4, 5, 6, 7, 0] ++ [0xE1, 0x10, 0x0E, 0, 3, 3, 0xD0, 0, 0, 0xFE] ++ List.replicate 102 0x5A
+example : (∀ i, i < 5 → tpM[8 + i]? = topazHdr[i]?) ∧ (formatTopaz tpM (some 0)).isOk = true
+    ∧ readNdef (t1Cfg 1) tpM = .ok (some { topazLayout with ndef := [0xD0, 0, 0] }) := by
+  decide +kernel
 
 /-! ## Non-vacuity -/
 /-- memory control TLV reserving bytes 27..28 inside the message (the image of `Props/C01`) -/
@@ -84,8 +121,9 @@ example : ∃ m', formatT2 f3M f3L none = .ok m' ∧ m'[24]? = some 0x77 ∧ m'[
     ∧ diffUnits 4 f3M m' = [(20, [3, 0, 3, 0]), (24, [0x77, 0xFE, 0xFE, 0])] := by
   refine ⟨_, rfl, ?_⟩; decide +kernel
 
-/-! ## The hypothesis `Hdr3` is necessary on the code as found (finding
-`t12-long-length-field-on-reserved-byte`, edge of the quantifier)
+/-! ## The hypothesis `Hdr3` is necessary (documentation, not a finding: the property's quantifier
+excludes reserved ranges on the NDEF TLV's length-field bytes, and a message of 255 bytes or more
+has the three bytes behind the tag as its length field)
 
 320-byte data area, memory control TLV reserving byte 24, NDEF TLV at 22 carrying the 1-byte
 message `42` (length byte 23, byte 24 = `99` reserved and jumped over, value at 25): well formed.
